@@ -81,8 +81,14 @@ Lemma oracle_tfidf_sound c vocab grams m : snd (oracle_tfidf c vocab grams m) = 
   Forall2 (tfidf_row_spec c vocab grams) grams (fm_data m).
 Proof.
   unfold oracle_tfidf. simpl. intros H. apply flag_zero in H; [|discriminate].
-  apply forall2b_sound in H. induction H as [|g row gs rows H1 H2 IH]; constructor; auto.
-  apply tfidf_row_ok_sound; exact H1.
+  apply forall2b_sound in H. remember (fm_data m) as rows eqn:Er. clear Er.
+  remember grams as gs eqn:Eg in H at 2 |- * at 2.
+  assert (Hgen : forall gs rows,
+    Forall2 (fun x y => tfidf_row_ok c vocab (List.length grams) grams x y = true) gs rows ->
+    Forall2 (tfidf_row_spec c vocab grams) gs rows).
+  { clear. intros gs rows H. induction H as [|g row gs rows H1 H2 IH]; constructor; auto.
+    apply tfidf_row_ok_sound; exact H1. }
+  apply Hgen. subst gs. exact H.
 Qed.
 
 (** * the word -> column content does not depend on the enumeration order *)
@@ -227,7 +233,7 @@ Qed.
 
 (** * non-vacuity *)
 Definition ex_e1 : vmap := [("aa", (7, 2)); ("aa bb", (0, 2))]%nat.
-Definition ex_e2 : vmap := [("aa bb", (5, 2)); ("aa", (1, 2))]%nat.
+Definition ex_e2 : vmap := [("aa bb", (0, 2)); ("aa", (7, 2))]%nat.
 
 Example ex_invariance_hyps : NoDup (keys ex_e1) /\ Permutation ex_e1 ex_e1 /\ Permutation ex_e2 ex_e1.
 Proof.
